@@ -6,6 +6,13 @@ HERE = os.path.dirname(os.path.dirname(os.path.abspath(__file__)))
 
 # id -> (category, technique, text, note)
 CLAIMED = {
+ "C03": ("other", "hidden-state analysis: interprocedural must-write dataflow over CFGs + key-vs-cache guard justification (ast)",
+         "Decides the history clause for every call sequence at once: each read of an attribute that integrate() itself writes is "
+         "either preceded by a write in the same call on every path, or every write-free path crosses a guard that compares the "
+         "data-derived key with the cache. Also: weights and cache are assigned together in every constructor; the weighted product "
+         "is formed from the whole array and reduced over the spatial axes only. "
+         "Not decided: that the value is the weighted sum / linear / resolution independent as numbers (cv2.resize arithmetic).",
+         "Trusted: python ast parser; sa/cfg.py, sa/state.py (path-insensitive within a function; attribute aliasing through containers not tracked)."),
  "C02": ("other", "CFG + reaching definitions on Image.subregion (bounded-selection rule), provenance checks, package-wide time-axis idiom lint (ast)",
          "Decides, for every input and nesting depth at once, the conventions each extraction step relies on: every definition of the "
          "voxel selection that reaches the data subscript and the origin/extent computation is bounded to the image; one selection "
